@@ -1,6 +1,7 @@
 package harness
 
 import (
+	"strings"
 	"github.com/bartossh/Computantis/src/transaction"
 	"fmt"
 
@@ -65,6 +66,9 @@ func opKind(name string) string {
 				if k[j] == '#' {
 					return k[:j]
 				}
+			}
+			if j := strings.Index(k, "-cancel-after-"); j >= 0 {
+				return "cancelled:" + k[:j]
 			}
 			return k
 		}
